@@ -166,7 +166,10 @@ class PathExec(object):
       return ('isinstance', self.ev(test.args[0], env), names)
     if isinstance(test, ast.Call):
       return self.ev(test, env)
-    return ('truth', self.ev(test, env))
+    t = self.ev(test, env)
+    if isinstance(t, tuple) and t[0] in ('cmp', 'in', 'notin'):
+      return t               # a flag that holds the outcome of a comparison made earlier on the path
+    return ('truth', t)
 
   # ------------------------------------------------------------ walking
   def run(self, targets, start=None):
